@@ -59,10 +59,12 @@ def ops_for(m, rng):
             k = len(n.args)
             ops.append(['args', t, 'slice', 0, rng.randint(0, k)])
             ops.append(['args', t, 'slice', rng.randint(0, k), k])
+            perm = list(range(k))
+            rng.shuffle(perm)
+            # re-argumenting with a TexArgs built from a list / a one-shot iterable
+            ops.append(['args', t, 'perm', perm,
+                        rng.choice(['list', 'gen', 'reversed', 'map', 'tuple', 'iter'])])
             if k > 1:
-                perm = list(range(k))
-                rng.shuffle(perm)
-                ops.append(['args', t, 'perm', perm])
                 ops.append(['args', t, 'reverse'])
             ops.append(['args', t, 'arg_string', rng.randrange(k), rng.choice(NEW_STRINGS)])
     return ops
@@ -74,7 +76,7 @@ class C14(Prop):
     rule = ('cases: W1 documents; every command / environment x {rename to a '
             'plain identifier, set string (single-argument commands, '
             'text-only environments), argument list prefix / suffix slice / '
-            'permutation / reversal, argument string}; one setter per fresh '
+            'permutation (TexArgs built from a list or from a one-shot iterable) / reversal, argument string}; one setter per fresh '
             'parse. non-trivial = every case (one real setter on a parsed '
             'node); distinct = by (source, operation)')
     assumptions = (
